@@ -16,9 +16,9 @@ TRAIT_KINDS = ["T000", "T001", "T010", "T011", "T100", "T101", "T110", "T111"]
 
 
 def R(lst, alloc="AE", mode="hist", nmax=3, cmax=2, bmax=4, depth=6, junk=0, base=0, arena1=0, faults=0, fixed=None,
-      max_states=400000, cscale=1):
+      max_states=400000, cscale=1, fault_ops=0):
     return dict(list=lst, alloc=alloc, mode=mode, nmax=nmax, cmax=cmax, bmax=bmax, depth=depth, junk=junk, base=base,
-                arena1=arena1, faults=faults, fixed=fixed, max_states=max_states, cscale=cscale)
+                arena1=arena1, faults=faults, fixed=fixed, max_states=max_states, cscale=cscale, fault_ops=fault_ops)
 
 
 def big_runs(lists, tier, mode="hist", depth=5, **kw):
@@ -73,9 +73,10 @@ def spec(prop, tier):
             return hist_runs(primary, tier, depth=7) + \
                 [R(l, "AE", "hist", depth=5, junk=1) for l in ALL_LISTS if l not in primary] + \
                 big_runs(["F3", "V1", "V3", "M1"], tier, depth=5) + \
-                pair_runs(["F3", "V1", "V3"], ["AE", "PP"], tier, 5) + pair_runs(["P3", "F2", "V5", "M2"], ["NP"], tier, 4)
+                pair_runs(["F3", "V1", "V3"], ["AE", "PP"], tier, 5) + pair_runs(["P3", "F2", "V5", "M2"], ["NP"], tier, 4) + \
+                pair_runs(["F3", "V1", "V3"], ["T001", "T101", "T010"], tier, 4)  # swap/move traits that disagree with each other
         return hist_runs(ALL_LISTS, tier, allocs=("AE", "NP"), nmax=4, cmax=3, bmax=6, depth=6) + \
-            pair_runs(ALL_LISTS, ["AE", "NP", "PP"], tier, 5)
+            pair_runs(ALL_LISTS, ["AE", "NP", "PP"], tier, 5) + pair_runs(["F1", "F3", "V1", "V3", "M2"], TRAIT_KINDS, tier, 5)
     if prop in ("C02", "C03", "C04", "C05"):
         lists = ALL_LISTS if prop != "C03" else ALIGNED
         if q:
@@ -169,10 +170,18 @@ def spec(prop, tier):
             runs.append(r)
         for l in lists:
             runs.append(R(l, "AE", "hist", nmax=2, cmax=1, bmax=2, depth=3, junk=1, faults=1))
+        # the environment's move fail(k) in the alphabet: exploration goes on after a failed reserve / copy construction /
+        # construction, which promise to leave everything unchanged (a damaged vector may only show at the next emplace_back)
+        for l in (["F1", "F3", "V1", "V3", "M2"] if q else ["P1", "F1", "F3", "V1", "V2", "V3", "V5", "M1", "M2"]):
+            runs.append(R(l, "AE", "hist", nmax=2, cmax=2, bmax=4, depth=5 if q else 6, junk=1, fault_ops=2))
+            for ar in (0, 1):
+                runs.append(R(l, "NP", "pair", nmax=2, cmax=1, bmax=2, depth=4 if q else 5, junk=1, arena1=ar, fixed="1", fault_ops=2))
         return runs
     if prop == "C18":
-        return hist_runs(ALL_LISTS, tier,
-                         mode="c18", nmax=2, cmax=1, bmax=2, depth=5 if q else 7)
+        # two-vector histories: an empty / default-constructed vector as source or target of copy, move, assignment and
+        # swap, with equal and unequal allocator instances
+        return hist_runs(ALL_LISTS, tier, mode="c18", nmax=2, cmax=1, bmax=2, depth=5 if q else 7) + \
+            pair_runs(["P1", "F1", "F3", "V1", "V3", "M2"] if q else ALL_LISTS, ["NP", "AE"] if q else ["NP", "AE", "PP"], tier, 3 if q else 4)
     raise KeyError(prop)
 
 
@@ -201,6 +210,8 @@ def engine_argv(binpath, r, prop, outfile, workers, deadline):
         argv += ["--faults", str(r["faults"])]
     if r["fixed"]:
         argv += ["--fixed", r["fixed"]]
+    if r.get("fault_ops", 0):
+        argv += ["--fault-ops", str(r["fault_ops"])]
     if r.get("cscale", 1) != 1:
         argv += ["--cscale", str(r["cscale"])]
     return argv
@@ -209,7 +220,8 @@ def engine_argv(binpath, r, prop, outfile, workers, deadline):
 def run_key(r):
     return "%s_%s_%s_j%d_b%d_a%d_f%d%s" % (r["list"], r["alloc"], r["mode"], r["junk"], r["base"], r["arena1"], r["faults"],
                                             (("_x" + r["fixed"].replace(",", ".")) if r["fixed"] else "") +
-                                            (("_s%d" % r["cscale"]) if r.get("cscale", 1) != 1 else ""))
+                                            (("_s%d" % r["cscale"]) if r.get("cscale", 1) != 1 else "") +
+                                            (("_o%d" % r["fault_ops"]) if r.get("fault_ops", 0) else ""))
 
 
 def collect(prop, tier, runs, t0, deadline_s):
